@@ -26,6 +26,7 @@ type Parser struct {
 	currentToken *Token // Current token being processed
 	peekToken    *Token // Next token (lookahead)
 	resolver     ReferenceResolver
+	tokenErr     error // Lexer error that ended the token stream, if any
 }
 
 // SetReferenceResolver sets the reference resolver for the parser.
@@ -62,10 +63,24 @@ func (p *Parser) nextToken() error {
 
 	token, err := p.lexer.NextToken()
 	if err != nil {
+		// Drop the stale lookahead: callers that ignore this error then see the end of the
+		// token stream (a nil current token) on the next shift and stop, instead of being
+		// handed the same token again forever.
+		p.peekToken = nil
+		p.tokenErr = err
 		return err
 	}
 	p.peekToken = token
 	return nil
+}
+
+// endOfTokens reports why there is no current token: the error that ended the token
+// stream if there was one, otherwise an unexpected end of input.
+func (p *Parser) endOfTokens(context string) error {
+	if p.tokenErr != nil {
+		return fmt.Errorf("unexpected end of input%s: %w", context, p.tokenErr)
+	}
+	return fmt.Errorf("unexpected end of input%s", context)
 }
 
 // skipComments skips over any consecutive comment tokens.
@@ -88,7 +103,7 @@ func (p *Parser) ParseObject() (Object, error) {
 	}
 
 	if p.currentToken == nil {
-		return nil, fmt.Errorf("unexpected end of input")
+		return nil, p.endOfTokens("")
 	}
 
 	switch p.currentToken.Type {
@@ -223,7 +238,7 @@ func (p *Parser) parseArray() (Object, error) {
 
 		// Check for end of array
 		if p.currentToken == nil {
-			return nil, fmt.Errorf("unexpected end of input in array")
+			return nil, p.endOfTokens(" in array")
 		}
 		if p.currentToken.Type == TokenArrayEnd {
 			p.nextToken()
@@ -260,7 +275,7 @@ func (p *Parser) parseDict() (Object, error) {
 
 		// Check for end of dict
 		if p.currentToken == nil {
-			return nil, fmt.Errorf("unexpected end of input in dictionary")
+			return nil, p.endOfTokens(" in dictionary")
 		}
 		if p.currentToken.Type == TokenDictEnd {
 			p.nextToken()
@@ -298,6 +313,9 @@ func (p *Parser) ParseIndirectObject() (*IndirectObject, error) {
 	}
 
 	// Parse object number
+	if p.currentToken == nil {
+		return nil, p.endOfTokens(" before object number")
+	}
 	if p.currentToken.Type != TokenInteger {
 		return nil, fmt.Errorf("expected object number, got %v", p.currentToken.Type)
 	}
@@ -309,6 +327,9 @@ func (p *Parser) ParseIndirectObject() (*IndirectObject, error) {
 	p.nextToken()
 
 	// Parse generation number
+	if p.currentToken == nil {
+		return nil, p.endOfTokens(" before generation number")
+	}
 	if p.currentToken.Type != TokenInteger {
 		return nil, fmt.Errorf("expected generation number, got %v", p.currentToken.Type)
 	}
@@ -320,6 +341,9 @@ func (p *Parser) ParseIndirectObject() (*IndirectObject, error) {
 	p.nextToken()
 
 	// Parse 'obj' keyword
+	if p.currentToken == nil {
+		return nil, p.endOfTokens(" before 'obj' keyword")
+	}
 	if p.currentToken.Type != TokenKeyword || string(p.currentToken.Value) != "obj" {
 		return nil, fmt.Errorf("expected 'obj' keyword, got %v", p.currentToken)
 	}
@@ -332,7 +356,7 @@ func (p *Parser) ParseIndirectObject() (*IndirectObject, error) {
 	}
 
 	// Check for stream
-	if p.currentToken.Type == TokenKeyword && string(p.currentToken.Value) == "stream" {
+	if p.currentToken != nil && p.currentToken.Type == TokenKeyword && string(p.currentToken.Value) == "stream" {
 		// This is a stream object
 		if dict, ok := obj.(Dict); ok {
 			stream, err := p.parseStream(dict)
@@ -346,6 +370,9 @@ func (p *Parser) ParseIndirectObject() (*IndirectObject, error) {
 	}
 
 	// Parse 'endobj' keyword
+	if p.currentToken == nil {
+		return nil, p.endOfTokens(" before 'endobj' keyword")
+	}
 	if p.currentToken.Type != TokenKeyword || string(p.currentToken.Value) != "endobj" {
 		return nil, fmt.Errorf("expected 'endobj' keyword, got %v", p.currentToken)
 	}
